@@ -11,6 +11,7 @@ namespace KV
 inductive Err
   | exist | invalidName | illegalKey | illegalValue | notSupported | illegalPath | writeNotAllowed
   | fuel     -- the model's recursion budget ran out (proved impossible)
+  | released -- goleveldb's ErrSnapshotReleased: a read through a read transaction after its Rollback
   deriving DecidableEq, Repr
 
 /-- a bucket path: the names from the top-level bucket down -/
@@ -51,6 +52,22 @@ inductive Obs
   | names (ns : List Bytes)
   | steps (ss : List (Bool × Option Bytes × Option Bytes))
   | unspecified          -- the specification makes no claim (iterators inside a write transaction)
+  | outOfContract        -- the caller left the contract (wrote through the handle of a bucket that no
+                         -- longer exists in its transaction): nothing is claimed from here on
+  deriving DecidableEq, Repr
+
+/-- The extended operation language (round 4): bucket handles and BucketMeta objects the caller
+    KEEPS across operations (registers `h`, `m`), FetchBucket with its per-transaction cache, and
+    the read transaction handle (and its bucket handles) used after its Rollback.
+    Paths inside `via` / `deadVia` are RELATIVE to the kept handle (`[]` = the handle itself). -/
+inductive OpX
+  | base (op : Op)                          -- every operation re-navigates from the transaction (as before)
+  | getMeta (s : Slot) (m : Nat) (p : Path)    -- m := <navigate p>.GetBucketMeta()
+  | fetch (s : Slot) (h m : Nat)            -- h := tx.FetchBucket(meta m)   (nil clears h)
+  | keep (s : Slot) (h : Nat) (p : Path)    -- h := tx.TopLevelBucket(p₀).Bucket(p₁)…   (nil clears h)
+  | via (h : Nat) (op : Op)                 -- the data operation through kept handle h of the slot of `op`
+  | dead (op : Op)                          -- … through the read transaction handle kept after its Rollback
+  | deadVia (h : Nat) (op : Op)             -- … through bucket handle h of that ended read transaction
   deriving DecidableEq, Repr
 
 /-- insertion into a list ascending by `lt` -/
